@@ -54,8 +54,8 @@ SMeasureKey(m, tk, re) ==
   CASE m = "percent" -> SProp(tk, re)
     [] m = "count_weighted"   -> SCountR(tk, re, WS)
     [] m = "count_unweighted" -> SCountR(tk, re, "n")
-    [] m = "base_unweighted"  -> R(TableBase(tk, re, NoEl, "n"))
-    [] m = "base_weighted"    -> R(TableBase(tk, re, NoEl, WS))
+    [] m = "base_unweighted"  -> RSt(TableBase(tk, re, NoEl, "n"), "n")
+    [] m = "base_weighted"    -> RSt(TableBase(tk, re, NoEl, WS), WS)
     [] m = "percent_stddev"   -> SVar(tk, re)
     [] m \in {"percent_stderr", "percent_moe"} -> SSE2(tk, re)
     [] m = "mean" -> IF IsIns(re) THEN NaN ELSE YStat("mean", Co(tk, re, NoEl))
@@ -67,11 +67,11 @@ SKnownMeasure(m) ==
 
 \* marginal keyword -> key of a row element
 RowMarginalKey(m, tk, re) ==
-  CASE m = "unweighted_base" -> RowDiffNaN(re, R(RowBase(tk, re, AnyEl(DimC), "n")))
-    [] m = "weighted_base"   -> RowDiffNaN(re, R(RowBase(tk, re, AnyEl(DimC), WS)))
+  CASE m = "unweighted_base" -> RowDiffNaN(re, RSt(RowBase(tk, re, AnyEl(DimC), "n"), "n"))
+    [] m = "weighted_base"   -> RowDiffNaN(re, RSt(RowBase(tk, re, AnyEl(DimC), WS), WS))
     [] m = "table_proportion" ->      \* the public rows_margin_proportion
          IF IsDiff(re) /\ HasY /\ ValidCounts THEN NaN
-         ELSE Div(R(RowBase(tk, re, AnyEl(DimC), WS)), R(TableBase(tk, re, AnyEl(DimC), WS)))
+         ELSE Div(RSt(RowBase(tk, re, AnyEl(DimC), WS), WS), RSt(TableBase(tk, re, AnyEl(DimC), WS), WS))
     [] m = "scale_mean"   -> ScaleMean(tk, DimR, re)
     [] m = "scale_median" -> ScaleMedian(tk, DimR, re)
     [] m = "scale_mean_stddev" -> ScaleVar(tk, DimR, re)
